@@ -36,13 +36,14 @@ const (
 	rsEntity                  // create or remove an entity
 	rsQuery                   // open / close a query
 	rsReset
-	rsLate // first use of a resource type (registration + Add/Get/Remove), possibly while a query is open
+	rsLate        // first use of a resource type (registration + Add/Get/Remove), possibly while a query is open
 	rsResetLocked // Reset while a query is open: must panic and leave the resources alone
+	rsLoad        // LoadEntities into the fresh / reset world (entity state only: resources stay)
 	rsLazy        // A=type: Get through a long-lived generic mapper that is used only by explicit operations (never by the oracle)
 )
 
 func (c *resCfg) OpKind(op wx.Op) string {
-	return [...]string{"", "Add", "Remove", "EntityOp", "Query open/close", "Reset", "first use of a new resource type", "Reset (locked world)", "long-lived mapper Get"}[op.K]
+	return [...]string{"", "Add", "Remove", "EntityOp", "Query open/close", "Reset", "first use of a new resource type", "Reset (locked world)", "LoadEntities", "long-lived mapper Get"}[op.K]
 }
 
 func (c *resCfg) OpString(op wx.Op) string {
@@ -67,6 +68,7 @@ type resRun struct {
 	ent     ecs.Entity
 	entOps  int
 	late    bool
+	pristine bool // no entity created since the world was created or reset: LoadEntities is legal
 	gA      generic.Resource[resA]
 	gB      generic.Resource[resB]
 	gC      generic.Resource[resC]
@@ -94,6 +96,7 @@ func (c *resCfg) New() wx.Run {
 	r.ptrs = [3][2]interface{}{{&resA{1}, &resA{2}}, {&resB{}, &resB{V: [2]int64{1, 2}}}, {&resC{}, &resC{}}}
 	// the generic mappers live as long as the world (as systems keep them), also across Reset
 	r.gA, r.gB, r.gC = generic.NewResource[resA](&r.w), generic.NewResource[resB](&r.w), generic.NewResource[resC](&r.w)
+	r.pristine = true
 	r.lA, r.lB, r.lC = generic.NewResource[resA](&r.w), generic.NewResource[resB](&r.w), generic.NewResource[resC](&r.w)
 	return r
 }
@@ -127,6 +130,9 @@ func (r *resRun) Key(buf []byte) []byte {
 	if r.late {
 		buf = append(buf, 'L')
 	}
+	if r.pristine {
+		buf = append(buf, 'P')
+	}
 	if r.q != nil {
 		buf = append(buf, 'Q')
 	}
@@ -149,6 +155,9 @@ func (r *resRun) Enabled() []wx.Op {
 			ops = append(ops, wx.Op{K: rsEntity})
 		}
 		ops = append(ops, wx.Op{K: rsReset})
+		if r.pristine {
+			ops = append(ops, wx.Op{K: rsLoad})
+		}
 	}
 	ops = append(ops, wx.Op{K: rsQuery})
 	if r.q != nil {
@@ -302,7 +311,17 @@ func (r *resRun) Apply(op wx.Op) wx.Result {
 				r.lzSeen[t] = 1
 			}
 		}
+	case rsLoad:
+		src := ecs.NewWorld()
+		src.NewEntity()
+		d := src.DumpEntities()
+		if pv := catchP(func() { w.LoadEntities(&d) }); pv != nil {
+			return r.fail("panic:load", fmt.Sprintf("LoadEntities into a fresh or reset world panicked: %v", pv))
+		}
+		r.pristine = false
+		r.entOps = 2 // no further entity operations in this epoch
 	case rsEntity:
+		r.pristine = false
 		r.entOps++
 		if r.ent.IsZero() {
 			r.ent = w.NewEntity(ecs.ComponentID[sim.CompA](w))
@@ -353,6 +372,7 @@ func (r *resRun) Apply(op wx.Op) wx.Result {
 		// the state oracle compares the resources with the unchanged model
 	case rsReset:
 		w.Reset()
+		r.pristine = true
 		r.present = [3]int{}
 		r.ent = ecs.Entity{}
 		r.entOps = 0
